@@ -508,7 +508,9 @@ def _sym_run(ctx: Ctx, f: Func, valuation: dict[str, bool], init: dict, tracked_
         if isinstance(test, ast.UnaryOp) and isinstance(test.op, ast.Not) and norm(test.operand) in valuation:
             return s if valuation[norm(test.operand)] != pol else None
         return s
-    cb = symexec.SymCB(lambda c: None, track, None, assume)
+    from kfv.terms import Facts
+    # the same valuation decides conditional expressions (a helper written as `x if test else y`)
+    cb = symexec.SymCB(lambda c: None, track, None, assume, Facts({}, None, dict(valuation)))
     final, exits = symexec.run(f, cb, {k: (v if isinstance(v, Poly) else Poly.atom(v)) for k, v in init.items()})
     return cb, final, exits
 
@@ -561,7 +563,7 @@ def rule_aff_factor(ctx: Ctx) -> None:
         ctx.check(fin is not None and env.get(fac) == Poly.atom('F'), 'AFF-ACC', f, f'update_{X}_factor without a batch leaves the factor unchanged', f'update_{X}_factor nobatch',
                   f'update_{X}_factor changes the factor to {env.get(fac).canon() if env.get(fac) else None} although no batch was accumulated', f.node)
         # the count test is exactly count > 1
-        tests = [n_ for n_ in p.nodes(f) if isinstance(n_, ast.If) and count in norm(n_.test)]
+        tests = [n_ for n_ in p.nodes(f) if isinstance(n_, (ast.If, ast.IfExp)) and count in norm(n_.test)]
         okc = len(tests) == 1 and norm(tests[0].test).replace(' ', '') in (f'{count}>1', f'1<{count}', f'{count}>=2', f'{count}!=1')
         ctx.check(okc, 'AFF-ACC', f, f'update_{X}_factor divides exactly when count > 1', f'update_{X}_factor count test',
                   f'update_{X}_factor normalises under `{norm(tests[0].test) if tests else None}`; specified: divide the accumulated sum by the count exactly when more than one micro-batch was accumulated', tests[0] if tests else f.node)
